@@ -70,6 +70,7 @@ def programs(
     extra_binary=(),
     root_sorts=None,
     complex_sorts=("c64", "c128"),
+    extra_pred=(),
 ):
     T = draw(st.sampled_from(list(main_sorts)))
     nsym = draw(st.integers(1, 3))
@@ -114,7 +115,7 @@ def programs(
     for _ in range(n):
         choice = draw(
             st.sampled_from(
-                ["unary", "unary", "binary", "binary", "binary", "compare", "compare", "logical", "not", "select", "select", "const", "const", "named", "cast", "list", "nested-select", "signshape"] + (["complex"] * 5 if complex_ok else [])
+                ["unary", "unary", "binary", "binary", "binary", "compare", "compare", "logical", "not", "select", "select", "const", "const", "named", "cast", "list", "nested-select", "signshape"] + (["complex"] * 5 if complex_ok else []) + (["pred"] * 2 if extra_pred else [])
             )
         )
         if choice == "unary":
@@ -138,6 +139,12 @@ def programs(
                     if "f" in (sorts[a], sorts[b]) and so != "f64":
                         so = "f" if {sorts[a], sorts[b]} == {"f"} else so
                 add([k, a, b], so)
+        elif choice == "pred":
+            # unary predicates (is_finite, ...) of a real operand
+            a = pick(is_real)
+            k = draw(st.sampled_from(list(extra_pred)))
+            if a is not None and ok(k):
+                add([k, a], "b")
         elif choice == "compare":
             a = pick(is_real)
             if a is None:
@@ -271,9 +278,15 @@ def programs(
                     add([draw(st.sampled_from(["eq", "ne"])), c, o], "b")
             elif op == "select":
                 b_ = pick(lambda s: s == "b")
-                o = pick(lambda s: s == sorts[c])
+                o = pick((lambda s: is_c(s) or is_real(s)) if mixed else (lambda s: s == sorts[c]))
                 if b_ is not None and o is not None:
-                    add(["select", b_, c, o], sorts[c])
+                    if sorts[o] == sorts[c]:
+                        add(["select", b_, c, o], sorts[c])
+                    else:
+                        # branches of different kind / width (mixed programs): either order
+                        wide = "c128" in (sorts[c], sorts[o]) or sorts[o] in ("f64", "f")
+                        so = "c" if sorts[c] == "c" else ("c128" if wide else "c64")
+                        add(["select", b_] + ([c, o] if draw(st.booleans()) else [o, c]), so)
         elif choice == "signshape":
             # deliberately sign-inferable shapes compared with each other / with 0 and 1
             a = pick(is_real)
